@@ -423,6 +423,16 @@ class ProfileEngine:
                 ops.append({"op": "set", "key": k,
                             "value": self.gen_value(rng, k)})
             ops.append({"op": "fit_perform"})
+        if index % 11 == 6:
+            # directed (run index alone): batch fit with a user training
+            # set, the training set regenerated in place, batch fit again
+            # in the same process
+            ops = [{"op": "setup", "script": {
+                        "training_set": ["@copy"],
+                        "regressor": 1 + (index // 11) % 7}},
+                   {"op": "fit_perform"},
+                   {"op": "regen_training"},
+                   {"op": "fit_perform"}]
         data = []
         for _ in range(rng.choice([1, 1, 2])):
             c = curves.gen_curve_cfg(rng, allow_recorded=False, big=True)
@@ -609,6 +619,16 @@ class ProfileEngine:
                             break
                         wrote = True
                         nontrivial = True
+                    elif kind == "regen_training":
+                        # the user's training set is generated anew into
+                        # the same directory (what nanite-generate-training-
+                        # set does): responses turned upside down
+                        d = pathlib.Path(str(ref["rating training set"]))
+                        if d.is_dir() and str(d).startswith(str(scratch)):
+                            rp = d / "train_response.txt"
+                            np.savetxt(rp, 10 - np.loadtxt(rp), fmt="%.2e")
+                            probes["training set regenerated in place"] += 1
+                        continue
                     elif kind == "fit_perform":
                         v = self.do_fit(run, scratch, prof, rating, path,
                                         ref, explicit, feats, i, probes)
